@@ -243,9 +243,13 @@ func (c *Ctx) Finish() int {
 	if ev.Assumptions == nil {
 		ev.Assumptions = []string{}
 	}
-	os.MkdirAll(filepath.Join(root, "evidence"), 0755)
+	evDir := filepath.Join(root, "evidence")
+	if d := os.Getenv("VERIF_EVIDENCE_DIR"); d != "" {
+		evDir = d // trying seeded changes: keep the committed evidence as it is
+	}
+	os.MkdirAll(evDir, 0755)
 	b, _ := json.MarshalIndent(ev, "", " ")
-	if err := os.WriteFile(filepath.Join(root, "evidence", c.ID+".json"), append(b, '\n'), 0644); err != nil {
+	if err := os.WriteFile(filepath.Join(evDir, c.ID+".json"), append(b, '\n'), 0644); err != nil {
 		fmt.Fprintln(os.Stderr, "INFRA: cannot write evidence:", err)
 		return 2
 	}
